@@ -372,7 +372,13 @@ class SymNP(types.ModuleType):
             return bool(c)
         if isinstance(c, _np.ndarray) and c.dtype == object:
             return _np.array([bool(v) for v in c.ravel()], dtype=bool).reshape(c.shape)
-        if isinstance(c, list):
+        if isinstance(c, (list, tuple)):
+            if any(isinstance(v, (list, tuple, _np.ndarray)) for v in c):
+                # nested / ragged (a list of arrays): truth of every element, flattened (what any/all/count need)
+                out = []
+                for v in c:
+                    out.extend(_np.ravel(self._boolarr(v if isinstance(v, (list, tuple)) else _np.asarray(v, dtype=object))).tolist())
+                return _np.array(out, dtype=bool)
             return _np.array([bool(v) for v in c], dtype=bool)
         return c
 
